@@ -61,31 +61,75 @@ def refval(n, cls):
     return exact(n)
 
 
+_CACHE = {}
+
+
+def ints(lo, hi):
+    """Cached st.integers(lo, hi): building (and validating) a strategy per draw dominates generation time."""
+    key = ("i", lo, hi)
+    if key not in _CACHE:
+        _CACHE[key] = st.integers(lo, hi)
+    return _CACHE[key]
+
+
+def _cached(key, make):
+    if key not in _CACHE:
+        _CACHE[key] = make()
+    return _CACHE[key]
+
+
+def pick(draw, seq):
+    """Element of a non-empty sequence; index 0 is the shrink target."""
+    return seq[draw(ints(0, len(seq) - 1))]
+
+
+def pick_distinct(draw, seq, lo, hi):
+    """lo..hi distinct elements of seq (clipped to its length), in drawn order."""
+    n = draw(ints(min(lo, len(seq)), min(hi, len(seq))))
+    rest = list(seq)
+    out = []
+    for _ in range(n):
+        out.append(rest.pop(draw(ints(0, len(rest) - 1))))
+    return out
+
+
+def permutation(draw, seq):
+    """Permutation by successive picks; all indices 0 = identity (shrink target)."""
+    rest = list(seq)
+    out = []
+    while rest:
+        out.append(rest.pop(draw(ints(0, len(rest) - 1))))
+    return out
+
+
 def fracs(max_p=20, max_q=9, min_p=0):
-    return st.builds(lambda p, q: "%d/%d" % (p, q), st.integers(min_p, max_p), st.integers(1, max_q))
+    return _cached(("f", max_p, max_q, min_p),
+                   lambda: st.builds(lambda p, q: "%d/%d" % (p, q), st.integers(min_p, max_p), st.integers(1, max_q)))
 
 
 def floats_pos(lo_exp, hi_exp):
     """Positive floats, log-uniform over 10**lo_exp .. 10**(hi_exp+1); shrinks towards 1.0."""
-    return st.builds(lambda m, e: float(m * 10.0 ** e),
-                     st.floats(min_value=1.0, max_value=9.999, allow_nan=False, allow_infinity=False),
-                     st.integers(lo_exp, hi_exp))
+    return _cached(("fl", lo_exp, hi_exp), lambda: st.builds(
+        lambda m, e: float(m * 10.0 ** e),
+        st.floats(min_value=1.0, max_value=9.999, allow_nan=False, allow_infinity=False), st.integers(lo_exp, hi_exp)))
 
 
 def conc_values(cls, key):
     if cls == "exact":
-        return st.one_of(st.integers(0, 9), fracs())
+        return _cached(("c", cls), lambda: st.one_of(st.integers(0, 9), fracs()))
     if cls == "float":
-        return st.one_of(floats_pos(-8, 3), floats_pos(-8, 3), st.integers(0, 9))
-    return st.one_of(st.just({"sym": "c_" + key}), st.just({"sym": "c_" + key}), st.integers(0, 5), fracs(9, 5))
+        return _cached(("c", cls), lambda: st.one_of(floats_pos(-8, 3), floats_pos(-8, 3), st.integers(0, 9)))
+    return _cached(("c", cls, key), lambda: st.one_of(st.just({"sym": "c_" + key}), st.just({"sym": "c_" + key}),
+                                                      st.integers(0, 5), fracs(9, 5)))
 
 
 def k_values(cls, idx):
     if cls == "exact":
-        return st.one_of(st.integers(1, 12), fracs(20, 9, 1))
+        return _cached(("k", cls), lambda: st.one_of(st.integers(1, 12), fracs(20, 9, 1)))
     if cls == "float":
-        return st.one_of(floats_pos(-15, 14), floats_pos(-3, 3), st.integers(1, 12))
-    return st.one_of(st.just({"sym": "k%d" % idx}), st.just({"sym": "k%d" % idx}), st.integers(1, 12), fracs(20, 9, 1))
+        return _cached(("k", cls), lambda: st.one_of(floats_pos(-15, 14), floats_pos(-3, 3), st.integers(1, 12)))
+    return _cached(("k", cls, idx), lambda: st.one_of(st.just({"sym": "k%d" % idx}), st.just({"sym": "k%d" % idx}),
+                                                      st.integers(1, 12), fracs(20, 9, 1)))
 
 
 # ---------------------------------------------------------------------------
@@ -93,8 +137,8 @@ def k_values(cls, idx):
 # ---------------------------------------------------------------------------
 
 def _side(draw, pool, lo, hi, max_coeff):
-    ks = draw(st.lists(st.sampled_from(pool), min_size=min(lo, len(pool)), max_size=min(hi, len(pool)), unique=True))
-    return {k: draw(st.integers(1, max_coeff)) for k in ks}
+    ks = pick_distinct(draw, pool, lo, hi)
+    return {k: draw(ints(1, max_coeff)) for k in ks}
 
 
 def _bump(d, key, n):
@@ -120,26 +164,24 @@ def _draw_rxn(draw, pool, small, max_coeff=3, allow_zero_order=True):
     """One reaction over the keys of `pool` (non-empty).  Catalysts (key on both sides), inactive parts and
     zeroth-order reactions are drawn explicitly so that their frequency does not depend on pool size."""
     hi = 1 if small else 3
-    shape = draw(st.integers(0, 19))
+    shape = draw(ints(0, 19))
     lo_r = 0 if (allow_zero_order and shape == 19) else 1
     reac = _side(draw, pool, lo_r, hi if lo_r else 0, max_coeff)
     prod = _side(draw, pool, 0 if reac else 1, hi, max_coeff)
     ir, ip = {}, {}
-    flags = draw(st.integers(0, 15))       # 0 = plain (shrink target)
-    if flags & 1 and flags & 2 and reac:   # catalyst: an active reactant is also a product
-        k = draw(st.sampled_from(sorted(reac)))
-        prod[k] = draw(st.integers(1, max_coeff))
-    if flags & 4:                          # inactive reactant (possibly of a species that is also active)
-        k = draw(st.sampled_from(pool))
-        ir[k] = draw(st.integers(1, 4))
-    if flags & 8 and flags & 1:            # inactive product
-        k = draw(st.sampled_from(pool))
-        ip[k] = draw(st.integers(1, 4))
+    flags = draw(ints(0, 127))      # 0 = plain (shrink target)
+    if (flags & 3) == 3 and reac:          # catalyst: an active reactant is also a product            (p = 1/4)
+        k = pick(draw, sorted(reac))
+        prod[k] = draw(ints(1, max_coeff))
+    if (flags & 12) == 12:                 # inactive reactant (possibly of a species that is also active) (p = 1/4)
+        k = pick(draw, pool)
+        ir[k] = draw(ints(1, 4))
+    if (flags & 112) == 112:               # inactive product                                           (p = 1/8)
+        k = pick(draw, pool)
+        ip[k] = draw(ints(1, 4))
     r = {"reac": reac, "prod": prod, "inact_reac": ir, "inact_prod": ip}
     if not has_effect(r):                  # Reaction() rejects reactions without any net effect: repair, do not filter
-        _bump(prod, pool[0], 1)
-        if not has_effect(r):
-            _bump(prod, pool[0], 1)
+        _bump(prod, pool[0], 1)            # all nets were zero, so the net of pool[0] is now +1
     return r
 
 
@@ -165,7 +207,21 @@ def stoich_sig(r):
 
 
 def _k_sig(k):
-    return repr(k)
+    """Parameters compare by value in chempy (1 == Fraction(1, 1) == 1.0)."""
+    if isinstance(k, list):
+        return tuple(_k_sig(x) for x in k)
+    if is_sym(k):
+        return ("sym", k["sym"])
+    return ("num", exact(k))
+
+
+def _param_sigs(r):
+    """What must be unique in a system: (stoichiometry, parameter) of every reaction, and of both directions of an
+    Equilibrium member (categorize_substances expands those into a forward and a backward Reaction)."""
+    if r.get("eq"):
+        return [(stoich_sig(r), _k_sig(r["k"])), (stoich_sig(r), _k_sig(r["k"][0])),
+                (stoich_sig(reverse_of(r)), _k_sig(r["k"][1]))]
+    return [(stoich_sig(r), _k_sig(r["k"]))]
 
 
 def dedupe_params(rxns):
@@ -174,64 +230,90 @@ def dedupe_params(rxns):
     seen = set()
     for r in rxns:
         j = 0
-        while (stoich_sig(r), _k_sig(r["k"]), r.get("eq", False)) in seen:
+        while any(sig in seen for sig in _param_sigs(r)) or len(set(_param_sigs(r))) != len(_param_sigs(r)):
             j += 1
             r["k"] = _other_k(r["k"], j)
-        seen.add((stoich_sig(r), _k_sig(r["k"]), r.get("eq", False)))
+        seen.update(_param_sigs(r))
     return rxns
 
 
 def _other_k(k, j):
     if isinstance(k, list):
-        return [_other_k(k[0], j), k[1]]
+        return [_other_k(k[0], j), _other_k(k[1], j + 1)]
     if is_sym(k):
         return {"sym": k["sym"] + "_%d" % j}
     if isinstance(k, int):
         return k + j
     if isinstance(k, float):
         return k * 2.0
-    f = exact(k) + 1
+    f = exact(k) + j
     return "%d/%d" % (f.numerator, f.denominator)
 
 
 @st.composite
-def systems(draw, cls="exact", max_subs=8, max_rxns=8, min_rxns=1, ktypes=("plain",), p_eq=0, reorder_subs=True):
+def systems(draw, cls="exact", max_subs=8, max_rxns=8, min_rxns=1, ktypes=("plain",), p_eq=0, reorder_subs=True,
+            keys=None):
     """A reaction system.  Graph shape is controlled: the participating keys are dealt into 1..4 blocks and each
     reaction lives in one block (several connected components; reactions with one reactant and one product give chains
     whose fusion depends on the order), `n_iso` keys take part in no reaction, reverse partners are appended."""
-    ns = draw(st.integers(1, max_subs))
-    n_iso = draw(st.integers(0, max(0, min(2, ns - 1)))) if draw(st.integers(0, 3)) == 3 else 0
-    used = KEYS[:ns - n_iso]
-    nblocks = draw(st.integers(1, min(4, len(used))))
+    keys = list(keys or KEYS)
+    ns = draw(ints(1, min(max_subs, len(keys))))
+    n_iso = draw(ints(0, max(0, min(2, ns - 1)))) if draw(ints(0, 3)) == 3 else 0
+    used = keys[:ns - n_iso]
+    nblocks = draw(ints(1, min(4, len(used))))
     blocks = [used[b::nblocks] for b in range(nblocks)]
-    nr = draw(st.integers(min_rxns, max_rxns))
-    small_all = draw(st.integers(0, 3)) == 3
+    nr = draw(ints(min_rxns, max_rxns))
+    small_all = draw(ints(0, 3)) == 3
     rxns = []
     while len(rxns) < nr:
-        b = draw(st.integers(0, nblocks - 1))
-        bridge = nblocks > 1 and draw(st.integers(0, 11)) == 11
+        b = draw(ints(0, nblocks - 1))
+        bridge = nblocks > 1 and draw(ints(0, 11)) == 11
         pool = sorted(set(blocks[b] + blocks[(b + 1) % nblocks])) if bridge else blocks[b]
-        small = small_all or draw(st.integers(0, 2)) == 2
+        small = small_all or draw(ints(0, 2)) == 2
         r = _draw_rxn(draw, pool, small)
         rxns.append(r)
-        if len(rxns) < nr and draw(st.integers(0, 5)) == 5:     # reverse partner of some earlier reaction
-            src = rxns[draw(st.integers(0, len(rxns) - 1))]
-            rv = reverse_of(src, draw(st.integers(0, 2)))
-            pos = draw(st.integers(0, len(rxns)))               # anywhere, also before its partner
+        if len(rxns) < nr and draw(ints(0, 5)) == 5:     # reverse partner of some earlier reaction
+            src = rxns[draw(ints(0, len(rxns) - 1))]
+            rv = reverse_of(src, draw(ints(0, 2)))
+            if not has_effect(rv):                              # e.g. active-only reverse of S0 -> S0 + (S0)
+                _bump(rv["prod"], rxn_keys(src)[0], 1)
+            pos = draw(ints(0, len(rxns)))               # anywhere, also before its partner
             rxns.insert(pos, rv)
+    eq_on = bool(p_eq and draw(ints(0, 99)) < p_eq)            # p_eq: percentage of systems with Equilibrium members
+    kmode = draw(ints(0, 9)) if len(ktypes) > 1 else 0          # 0-5 all plain, 6-7 mixed, 8/9 all of one other kind
     for i, r in enumerate(rxns):
-        r["eq"] = bool(p_eq and draw(st.integers(0, 99)) < p_eq)
+        r["eq"] = bool(eq_on and draw(ints(0, 2)) == 2)
         if r["eq"]:
             r["ktype"] = "plain"
             r["k"] = [draw(k_values(cls, i)), draw(k_values(cls, i))]
         else:
-            r["ktype"] = draw(st.sampled_from(ktypes))
+            if kmode <= 5:
+                r["ktype"] = ktypes[0]
+            elif kmode <= 7:
+                r["ktype"] = pick(draw, ktypes)
+            else:
+                r["ktype"] = ktypes[1 + (kmode - 8) % (len(ktypes) - 1)]
             r["k"] = draw(k_values(cls, i))
     dedupe_params(rxns)
-    subs = list(KEYS[:ns])
+    subs = list(keys[:ns])
     if reorder_subs:
-        subs = list(draw(st.permutations(subs)))
+        subs = permutation(draw, subs)
     return {"subs": subs, "rxns": rxns}
+
+
+@st.composite
+def reactions_over(draw, keys, max_n=3, cls="exact", start_index=0):
+    """1..max_n reactions over the given (non-empty) key list, plain parameters (used by the C15 state machine)."""
+    keys = list(keys)
+    out = []
+    for i in range(draw(ints(1, max_n))):
+        pool = pick_distinct(draw, keys, 1, 4) if draw(ints(0, 1)) else keys
+        r = _draw_rxn(draw, sorted(pool), draw(ints(0, 2)) == 2)
+        r["eq"] = False
+        r["ktype"] = "plain"
+        r["k"] = draw(k_values(cls, start_index + i))
+        out.append(r)
+    return out
 
 
 @st.composite
@@ -239,9 +321,9 @@ def rate_cases(draw, cls=None, cstr=False, max_subs=8, max_rxns=8):
     """Case of C03: a system, a concentration vector (plus an alternative one), a permutation of the reactions and
     optionally stirred-tank feed terms."""
     if cls is None:
-        cls = draw(st.sampled_from(["exact", "exact", "float", "float", "sym"]))
+        cls = pick(draw, ["exact", "exact", "float", "float", "sym"])
     sysd = draw(systems(cls=cls, max_subs=max_subs, max_rxns=max_rxns,
-                        ktypes=("plain", "plain", "plain", "plain", "named", "massaction")))
+                        ktypes=("plain", "named", "massaction")))
     conc = {k: draw(conc_values(cls, k)) for k in sorted(sysd["subs"])}
     alt = {}
     for k in sorted(sysd["subs"]):
@@ -250,16 +332,19 @@ def rate_cases(draw, cls=None, cstr=False, max_subs=8, max_rxns=8):
         else:
             alt[k] = draw(conc_values(cls, k))
     case = {"cls": cls, "sys": sysd, "conc": conc, "alt": alt,
-            "perm": list(draw(st.permutations(list(range(len(sysd["rxns"]))))))}
+            "perm": permutation(draw, list(range(len(sysd["rxns"]))))}
     if cstr:
-        which = draw(st.integers(0, 3))
-        if which == 0:
-            fkeys = list(sysd["subs"])
-        else:
-            fkeys = draw(st.lists(st.sampled_from(sorted(sysd["subs"])), min_size=1, unique=True))
+        which = draw(ints(0, 7))
+        part = sorted(set(k for r in sysd["rxns"] for k in rxn_keys(r)))
+        if which == 7:
+            fkeys = list(sysd["subs"])                          # what get_odesys(cstr=True) does
+        elif which == 6:
+            fkeys = pick_distinct(draw, sorted(sysd["subs"]), 1, len(sysd["subs"]))
+        else:                                                   # feeds to species that take part in some reaction
+            fkeys = pick_distinct(draw, part, 1, len(part))
         if cls == "sym":
-            fr = draw(st.one_of(st.just({"sym": "F"}), st.integers(0, 5), fracs(9, 5)))
-            fc = {k: draw(st.one_of(st.just({"sym": "f_" + k}), st.integers(0, 9))) for k in sorted(fkeys)}
+            fr = draw(_cached("symF", lambda: st.one_of(st.just({"sym": "F"}), st.integers(0, 5), fracs(9, 5))))
+            fc = {k: ({"sym": "f_" + k} if draw(ints(0, 3)) else draw(ints(0, 9))) for k in sorted(fkeys)}
         else:
             fr = draw(conc_values(cls, "F"))
             fc = {k: draw(conc_values(cls, k)) for k in sorted(fkeys)}
